@@ -256,6 +256,10 @@ class Persist:
                             why += '; ' + why2
             elif kind == 'mutcall' and op['method'] in ('add',) and len(op['value'].args) == 1:
                 verdict, why = True, 'monotone membership flag (set.add of a key)'
+            elif kind == 'mutcall' and op['method'] == 'update' and len(op['value'].args) == 1 and \
+                    isinstance(op['value'].args[0], (ast.Tuple, ast.List, ast.Set)) and \
+                    not any(isinstance(e, (ast.Tuple, ast.List)) for e in op['value'].args[0].elts):
+                verdict, why = True, 'monotone membership flags (set.update of a display of keys)'
             elif kind == 'setattr':
                 # lazy init: under `self.attr is None`
                 attr = op['attr']
